@@ -127,6 +127,13 @@ pub fn universe(tier: Tier) -> Vec<RVal> {
     out.extend(univ::relation_universe(univ::d2(), false));
     out.extend(refmodel::gen::strkey_docs());
     out.extend(refmodel::gen::tagv_relation_docs());
+    // NaN and the infinities (valid JSONB numbers): bare, as only element, followed by an element
+    for f in [f64::NAN, f64::INFINITY, f64::NEG_INFINITY] {
+        out.push(RVal::f(f));
+        out.push(RVal::Arr(vec![RVal::f(f)]));
+        out.push(RVal::Arr(vec![RVal::f(f), RVal::u(1)]));
+        out.push(RVal::obj(vec![("a", RVal::f(f))]));
+    }
     if tier.thorough() {
         out.extend(univ::p5().iter().cloned());
     }
